@@ -51,6 +51,7 @@ THEOREMS_DOC = {
     "C09_response_payload": "block response payload = hex(le16 t ++ le16 v ++ le16 i) ++ hex(block i) for 16-bit t, v, i",
     "C09_response_echo": "parsing the response gives back exactly (t, v, i) and the block",
     "C09_config_payload": "config response payload = hex(le16 t ++ le16 v ++ le16 blocks ++ le16 crc)",
+    "C09_config_payload_overflow": "blocks > 65535 (image >= 1 MiB - 127 bytes): the config payload raises struct.error (boundary, outside 1..32768)",
     "C09_config_echo": "unpacking the config payload gives (t, v, blocks, crc)",
     "C09_unhexlify_hexlify": "forall byte strings b: unhexlify(hexlify(b)) = b",
     "C09_hexlify_unhexlify": "unhexlify s = b -> b is a byte string and hexlify b = lower(s)",
@@ -700,8 +701,15 @@ def model_obs(case, outs):
 
 # ---------------------------------------------------------------- monitors (property on the implementation)
 
-def padded(img):
-    return img + b"\xff" * (128 - len(img) % 128)
+def allowed_blocks(n):
+    """Block counts the property allows for an image of n bytes: 0xFF padding of 0..128 bytes up to a page multiple."""
+    return {b for b in (((n + 127) // 128) * 8, (n // 128 + 1) * 8) if b * 16 >= n}
+
+
+def padded(img, blocks=None):
+    if blocks is None:
+        blocks = max(allowed_blocks(len(img)))
+    return img + b"\xff" * (16 * blocks - len(img))
 
 
 def parse_reply(r, node, sub):
@@ -754,7 +762,7 @@ def monitor_session(case, obs, res=None):
         if data[:len(img)] != img:
             return f"node {nd}: reassembled data does not start with the image"
         pad = data[len(img):]
-        if not 1 <= len(pad) <= 128 or pad != b"\xff" * len(pad):
+        if not 0 <= len(pad) <= 128 or pad != b"\xff" * len(pad):
             return f"node {nd}: padding after the image is {len(pad)} bytes / not all 0xFF"
         if crc16_modbus(data) != C:
             return f"node {nd}: advertised CRC {C:#06x} != CRC-16/MODBUS of the served data {crc16_modbus(data):#06x}"
@@ -813,9 +821,9 @@ def monitor_session(case, obs, res=None):
             if nd not in sched or (t, v) != sched[nd]:
                 return f"node {nd}: config response advertises ({t}, {v}), scheduled is {sched.get(nd)}", complete
             img = fws[(t, v)]
-            if B != spec_blocks(len(img)):
+            if B not in allowed_blocks(len(img)):
                 return f"node {nd}: advertised {B} blocks for an image of {len(img)} bytes", complete
-            if C != crc16_modbus(padded(img)):
+            if C != crc16_modbus(padded(img, B)):
                 return f"node {nd}: advertised CRC {C:#06x} is not the CRC of image + padding", complete
             advert[nd] = (t, v, B, C)
             got[nd] = {}
@@ -843,9 +851,13 @@ def monitor_session(case, obs, res=None):
         if len(b) < 6 or le16s(b[:6]) != [t, v, i]:
             return f"node {nd}: block response echoes {le16s(b[:6]) if len(b) >= 6 else b.hex()}, request was {[t, v, i]}", complete
         blk = b[6:]
-        want = padded(fws[(t, v)])[i * 16:i * 16 + 16]
-        if blk != want:
-            return f"node {nd}: block {i} of firmware ({t}, {v}) is {blk.hex()}, image + padding has {want.hex()}", complete
+        img = fws[(t, v)]
+        if nd in advert and advert[nd][:2] == (t, v):
+            wants = [padded(img, advert[nd][2])[i * 16:i * 16 + 16]]
+        else:
+            wants = [padded(img, b)[i * 16:i * 16 + 16] for b in sorted(allowed_blocks(len(img)))]
+        if blk not in wants:
+            return f"node {nd}: block {i} of firmware ({t}, {v}) is {blk.hex()}, image + padding has {wants[-1].hex()}", complete
         if nd in advert and advert[nd][:2] == (t, v):
             if i in got[nd] and got[nd][i] != blk:
                 return f"node {nd}: block {i} answered differently on repetition", complete
@@ -872,7 +884,7 @@ def monitor(case, obs):
         if data[:len(img)] != img:
             return "prepared data does not start with the image"
         pad = data[len(img):]
-        if not 1 <= len(pad) <= 128 or pad != b"\xff" * len(pad):
+        if not 0 <= len(pad) <= 128 or pad != b"\xff" * len(pad):
             return f"padding is {len(pad)} bytes / not all 0xFF"
         if len(data) % 128 or len(data) != 16 * blocks or type(blocks) is not int:
             return f"data length {len(data)} vs blocks {blocks!r}: not 16*B or not a multiple of 128"
